@@ -32,6 +32,16 @@ theorem constants_tie :
     Gen.C05.addrFamilyIPv4 = 1 ∧ Gen.C05.addrFamilyIPv6 = 2 ∧ Gen.C05.addrFamilyDomain = 3 ∧
     Gen.C05.addrFamilyForward = 4 ∧ Gen.C05.addrFamilyAgent = 5 := by decide
 
+/-- Go `unsafe.Sizeof` of the element types whose `make` length comes from the wire equals what
+    the allocation traces of the model use (T-gen tie). -/
+theorem sizes_tie :
+    Gen.C05.sizeofRoute = sizeofRoute ∧ Gen.C05.sizeofPeerInfo = sizeofPeerInfo ∧
+    Gen.C05.sizeofListenerInfo = sizeofListenerInfo ∧ Gen.C05.sizeofString = sizeofString ∧
+    Gen.C05.sizeofRouteAdvertise = sizeofRouteAdvertise ∧
+    Gen.C05.sizeofRouteWithdraw = sizeofRouteWithdraw ∧
+    Gen.C05.sizeofNodeInfoAdvertise = sizeofNodeInfoAdvertise ∧ Gen.C05.sizeofAgentID = 16 := by
+  decide
+
 /-! ### generic shape of the two statements -/
 
 /-- Round trip for a kind whose decoder is `decodeTop k c`: sound codec + the encoding of a
@@ -671,5 +681,55 @@ theorem QueuedState_decode_wf (bs : Bytes) (q : QueuedState) (h : decodeQueuedSt
 theorem QueuedState_reencode (bs : Bytes) (q : QueuedState) (h : decodeQueuedState bs = some q) :
     decodeQueuedState (encodeQueuedState q) = some q :=
   QueuedState_roundtrip q (QueuedState_decode_wf bs q h)
+
+/-! ### `K_alloc_le`: allocation in proportion to the input, for ANY input
+
+  `c.alloc bs` is the trace of every `make` / `readBytes` / string conversion whose size the Go
+  decoder takes from the wire (count or length fields), successful or not.  For each kind it is at
+  most `A·len + K`, `K` being the 1-byte-count reservations (≤ 255 elements each).  The measured
+  heap growth of the real decoders (op `alloc`, bound 1024·len + 65536) is the tie. -/
+
+theorem PeerHello_alloc_le (bs : Bytes) : decodeTopAlloc 28 peerHelloC bs ≤ 1 * bs.length + 4080 :=
+  decodeTopAlloc_le peerHello_alloc 28 bs
+theorem StreamOpen_alloc_le (bs : Bytes) : decodeTopAlloc 45 streamOpenC bs ≤ 1 * bs.length + 4080 :=
+  decodeTopAlloc_le streamOpen_alloc 45 bs
+theorem StreamOpenAck_alloc_le (bs : Bytes) : decodeTopAlloc 43 streamOpenAckC bs ≤ 1 * bs.length + 0 :=
+  decodeTopAlloc_le streamOpenAck_alloc 43 bs
+theorem StreamOpenErr_alloc_le (bs : Bytes) : decodeTopAlloc 11 streamOpenErrC bs ≤ 1 * bs.length + 0 :=
+  decodeTopAlloc_le streamOpenErr_alloc 11 bs
+theorem RouteAdvertise_alloc_le (bs : Bytes) : routeAdvertiseAlloc bs ≤ 2 * bs.length + 18360 :=
+  decodeTopAlloc_le routeAdvertise_alloc 28 bs
+theorem RouteWithdraw_alloc_le (bs : Bytes) : routeWithdrawAlloc bs ≤ 1 * bs.length + 14280 :=
+  decodeTopAlloc_le routeWithdraw_alloc 26 bs
+theorem EncryptedData_alloc_le (bs : Bytes) : decodeTopAlloc 3 (seq bool (lp 2)) bs ≤ 1 * bs.length + 0 :=
+  decodeTopAlloc_le encData_alloc 3 bs
+theorem Path_alloc_le (bs : Bytes) : decodeTopAlloc 1 ids bs ≤ 1 * bs.length + 16 * 255 :=
+  decodeTopAlloc_le (ids_alloc 1 (by decide)) 1 bs
+theorem NodeInfo_alloc_le (bs : Bytes) : nodeInfoAlloc bs ≤ 3 * bs.length + 7280 :=
+  nodeInfoAlloc_le bs
+theorem NodeInfoAdvertise_alloc_le (bs : Bytes) : nodeInfoAdvertiseAlloc bs ≤ 4 * bs.length + 11360 :=
+  decodeTopAlloc_le nodeInfoAdvertise_alloc 28 bs
+theorem ControlRequest_alloc_le (bs : Bytes) : decodeTopAlloc 30 controlRequestC bs ≤ 1 * bs.length + 4080 :=
+  decodeTopAlloc_le controlRequest_alloc 30 bs
+theorem ControlResponse_alloc_le (bs : Bytes) : decodeTopAlloc 12 controlResponseC bs ≤ 1 * bs.length + 0 :=
+  decodeTopAlloc_le controlResponse_alloc 12 bs
+theorem UDPDatagram_alloc_le (bs : Bytes) : decodeTopAlloc 6 udpDatagramC bs ≤ 1 * bs.length + 0 :=
+  decodeTopAlloc_le udpDatagram_alloc 6 bs
+theorem ICMPOpen_alloc_le (bs : Bytes) : decodeTopAlloc 43 icmpOpenC bs ≤ 1 * bs.length + 4080 :=
+  decodeTopAlloc_le icmpOpen_alloc 43 bs
+theorem ICMPOpenAck_alloc_le (bs : Bytes) : decodeTopAlloc 40 icmpOpenAckC bs ≤ 1 * bs.length + 0 :=
+  decodeTopAlloc_le icmpOpenAck_alloc 40 bs
+theorem ICMPEcho_alloc_le (bs : Bytes) : decodeTopAlloc 8 icmpEchoC bs ≤ 1 * bs.length + 0 :=
+  decodeTopAlloc_le icmpEcho_alloc 8 bs
+theorem SleepWake_alloc_le (bs : Bytes) : cmdAlloc bs ≤ 1 * bs.length + 4080 :=
+  decodeTopAlloc_le sleep_alloc cmdMinLen bs
+/-- QueuedState, fixed decoder: the three capped reservations, every nested advertisement /
+    withdrawal / node-info decode and both commands together. -/
+theorem QueuedState_alloc_le (bs : Bytes) : queuedAlloc bs ≤ 941 * bs.length + 8160 :=
+  queuedAlloc_le bs
+
+/-- a 28-byte input announcing 255 routes makes the decoder reserve 255 `Route`s: the constant `K` is real -/
+example : routeAdvertiseAlloc (List.replicate 16 0 ++ [0] ++ List.replicate 8 0 ++ [255, 1, 32]) = 16 + 40 * 255 := by
+  decide
 
 end MM.C05
